@@ -173,7 +173,6 @@ let decode_kfs : (string * (n -> n list -> bool)) list = [
   "kf_prop_len_overrun", kf_prop_len_overrun;
   "kf_proplen_omitted", kf_proplen_omitted;
   "kf_trailing", kf_trailing;
-  "kf_topic_fffd", kf_topic_fffd;
 ]
 
 let rec drop k l = if k <= 0 then l else match l with [] -> [] | _ :: r -> drop (k - 1) r
@@ -229,7 +228,7 @@ let run_enc (input : Sexp.t) (impl : Sexp.t) : Verdict.t =
   let mr = model_reenc v b in
   let agree = (mr = ir) in
   let oracle = c06_encode_ok v b ir in
-  let kf = if oracle then "-" else if kf_enc_topic_fffd b then "kf_topic_fffd" else "-" in
+  let kf = "-" in
   let name = match Sexp.field1 "pkt" input with Sexp.L (Sexp.A n :: _) -> n | _ -> "?" in
   { Verdict.agree; oracle; kf; nontrivial = wf_packet b;
     cls = Printf.sprintf "v%d_%s_%s" (int_of_n v) name
@@ -251,7 +250,6 @@ let run_topic (input : Sexp.t) (impl : Sexp.t) : Verdict.t =
   let oracle = c06_topic_ok s io in
   let kf = if oracle then "-"
     else if kf_t_name_empty s then "kf_name_empty"
-    else if kf_t_fffd s then "kf_topic_fffd"
     else if kf_t_nul s then "kf_topic_nul"
     else "-" in
   let c k b = match b with TB true -> k | _ -> "" in
